@@ -17,6 +17,10 @@ type Item struct {
 	Label    string
 }
 
+// RacesOnly makes RunItems ignore scheduler-level and oracle verdicts (they belong to other
+// properties' checks); only race reports are collected.
+var RacesOnly bool
+
 // Summary is what RunItems returns for the evidence file.
 type Summary struct {
 	Execs, Steps, Nodes int64
@@ -93,6 +97,9 @@ func RunItems(rp *hk.Reporter, pool *Pool, items []Item, budget *hk.Budget, verb
 			}
 			newViol := false
 			for _, v := range st.Violations {
+				if RacesOnly {
+					continue
+				}
 				res, ok := Confirm(it.Name, it.Params, v, 5)
 				if !ok {
 					fmt.Fprintf(os.Stderr, "verifh: schedule in %s did not reproduce deterministically (kind %s); not reported\n", label, v.Kind)
